@@ -30,7 +30,8 @@ Worker -> controller:  (kind, ..., obs, snap) with kind in
   obs: what the calls since the last message did; snap: ec.ethertype, the table ec.programs refers to,
   fmmu_lock_file.base_addr >> 22, and whether the process is between create_map and obj_pin.
 
-`replay(...)` drives one schedule ([{p, a, c, f}, ...], a = "crash" kills the process) and then lets
+`replay(...)` drives one schedule ([{p, a, c, f}, ...], a = "crash" kills the process, a = "cancel"
+raises CancelledError inside the connect / attach / detach the participant is about to await) and then lets
 every participant run to its end (all leave); after every step the shared state is read from the
 private directory.  mode "fmmu": the participants are bare `FMMULock(path)` ... `remove()` users.
 The schedule may come from another protocol than the code's (the earlier, unrepaired ones):
@@ -43,6 +44,7 @@ The schedule may come from another protocol than the code's (the earlier, unrepa
     process that never answers.
 Nothing here judges anything: the events go to TLC (spec/ParallelTrace.tla).
 """
+import asyncio
 import errno
 import json
 import multiprocessing
@@ -57,6 +59,7 @@ PROGS = f"/sys/fs/bpf/{IF}/programs"
 MBX = f"/run/ebpf/{IF}"
 FMMU = MBX + ".fmmu"
 MUTEX = f"/run/lock/ebpf.{IF}.mutex"
+AWAITED = ("connect", "attach", "detach")                # calls run() awaits: a cancellation arrives there
 STOP_FIRST = ("open:mutex", "remove:own", "lock:fmmu")   # first call of a stop sequence (new / old / bare)
 PREFIXES = ("/run/lock", "/run/ebpf", "/sys/fs/bpf")
 ALL = ("p1", "p2", "p3")
@@ -129,11 +132,19 @@ def _worker(conn, repo):
         if msg[0] != "go":
             os._exit(0)
         choices[:] = list(msg[1])
-        S["fault"] = bool(msg[2]) if len(msg) > 2 else False
+        S["fault"] = msg[2] if len(msg) > 2 else False      # False / True (the call fails) / "cancel"
 
-    def environment(call):
-        """the kernel-facing calls of the start-up fail when the schedule says so"""
-        if S["fault"]:
+    def environment(call, awaiting=False, failable=True):
+        """the kernel-facing calls of the start-up fail when the schedule says so; the task is
+        cancelled inside an awaited call (connect / attach / detach) when the schedule says so"""
+        if S["fault"] == "cancel":
+            S["fault"] = False
+            if awaiting:
+                S["inst"] = False
+                note(call, "cancelled")
+                raise asyncio.CancelledError()
+            return
+        if S["fault"] and failable:
             S["fault"] = False
             S["inst"] = False                    # the attempt to install is over: the error handler runs
             note(call, "fault", fault=True)
@@ -309,7 +320,7 @@ def _worker(conn, repo):
 
     async def attach(self, network, *a, **kw):
         gate("attach")
-        environment("attach")
+        environment("attach", awaiting=True)
 
         def att():
             with builtins.open(os.path.join(S['root'], "kernel", "attached"), "w") as f:
@@ -318,6 +329,7 @@ def _worker(conn, repo):
 
     async def detach(self, network, *a, **kw):
         gate("detach")
+        environment("detach", awaiting=True, failable=False)
         try:
             os.remove(os.path.join(S['root'], "kernel", "attached"))
         except FileNotFoundError:
@@ -329,7 +341,7 @@ def _worker(conn, repo):
 
     async def connect(self):
         gate("connect")
-        environment("connect")
+        environment("connect", awaiting=True)
         note("connect", "ok")
 
     async def nosleep(t=0, *a):
@@ -401,7 +413,7 @@ def _worker(conn, repo):
         cm = ec.run()
         try:
             drive(cm.__aenter__())
-        except Exception as e:
+        except (Exception, asyncio.CancelledError) as e:
             S["inst"] = False
             send("exc", "start", text(e))
             return
@@ -414,7 +426,7 @@ def _worker(conn, repo):
             os._exit(0)
         try:
             drive(cm.__aexit__(None, None, None))
-        except Exception as e:
+        except (Exception, asyncio.CancelledError) as e:
             S["inst"] = False
             send("exc", "stop", text(e))
         else:
@@ -492,7 +504,7 @@ class Part:
 
     def go(self, choice, probe=(), fault=False):
         gate_before = self.parked
-        self.conn.send(("go", list(probe) + ([choice] if choice else []), bool(fault)))
+        self.conn.send(("go", list(probe) + ([choice] if choice else []), fault))
         msg = self._recv()
         self.blocked = (msg[0] == "gate" and msg[1] == gate_before and
                         any(o.get("res") == "blocked" for o in self.obs))
@@ -621,6 +633,17 @@ def replay(repo, base, schedule, tag="r", drain=True, timeout=10.0, pool=None, m
         if w.final():
             st8["drift"] += 1
             return False
+        if a == "cancel":                        # the task is cancelled inside the call it awaits
+            if w.state in ("new", "running"):
+                w.ensure_parked()
+            g = w.parked
+            if w.final() or g not in AWAITED:
+                st8["drift"] += 1
+                return False
+            w.go(0, (), "cancel")
+            ev.append(dict(p=p, a="cancel", c=0, f=False, res="cancelled in " + g, exc=w.exc, obs=look(),
+                           st=status(parts)))
+            return True
         if expected and a is not None and a in ahead.get(p, []) and w.parked != a:
             ahead[p].remove(a)                   # passed already on the way to an earlier step
             return True
